@@ -28,6 +28,13 @@ package dastard
 //                        `closure` (function literal that sends a result) only ever runs inside
 //                        the `request` region of the core-loop task
 //   no-panic             automatic (signature panic:<frame>)
+//
+// Faulted runs plan one I/O failure: an operation that fails (create / mkdir / stat / temp file), or a
+// FULL DISK for one class of the small files the request path writes (comment.txt, the experiment-state
+// file, channels.json, the external-trigger / data-drop logs that STOP flushes): the file is created, its
+// handle is /dev/full, every write or flush fails with ENOSPC (simrt.FaultFS.FullMatch). A request one of
+// whose writes failed for certain must be answered with an error (reply:success-despite-io-failure:<kind>),
+// once; liveness, progress and mutual exclusion are never relaxed.
 
 import (
 	"errors"
@@ -47,7 +54,7 @@ func init() {
 		Real: []string{"every exported request method of SourceControl (ConfigureTriggers, ConfigurePulseLengths, ConfigureProjectorsBasis, WriteControl, SetExperimentStateLabel in wait mode, WriteComment, ReadComment, CoupleErrToFB, CoupleFBToErr, Add/DeleteGroupTriggerCoupling, StopTriggerCoupling, ConfigureMixFraction, StoreRawDataBlock, SendAllStatus, Start, Stop)",
 			"runLaterIfActive / handlePossibleStoppedSource", "Start / CoreLoop / ProcessSegments / per-channel processors / TriggerBroker", "AnySource handlers (ChangeTriggerState, ConfigurePulseLengths, ConfigureProjectorsBases, WriteControl, writeControlStart, makeDirectory, ArchiveDataBlock and its writer goroutine)",
 			"WritingState, HandleExternalTriggers, HandleDataDrop", "TriangleSource, SimPulseSource, ErroringSource producers", "DataPublisher + LJH writers on real files"},
-		Stub: []string{"hardware (ScriptedSource fed by a paced hardware task)", "status, record and summary publishers (sinks)", "net/rpc + JSON codec + TCP (methods called directly by one client task)", "file-system failures (simrt fault FS behind the interposed os.* calls)", "Lancero / Abaco / ROACH sources (mix requests only reach the generic refusal)"}})
+		Stub: []string{"hardware (ScriptedSource fed by a paced hardware task)", "status, record and summary publishers (sinks)", "net/rpc + JSON codec + TCP (methods called directly by one client task)", "file-system failures (simrt fault FS behind the interposed os.* calls)", "full disk for one class of small files written on the request path (faulted runs: comment.txt, experiment-state file, channels.json, and the external-trigger / data-drop logs that STOP flushes; the file is created, its handle is /dev/full, every write or flush fails with ENOSPC)", "Lancero / Abaco / ROACH sources (mix requests only reach the generic refusal)"}})
 }
 
 // c11FailStop is the message of the core loop's deliberate panic when ProcessSegments returns
@@ -60,10 +67,11 @@ const c11FailStop = "Panic to stop source when processSegments errors"
 // creates. The property's fault quantifier is "single I/O failures in request handlers".
 func c11Judge(res *simrt.Result) *simrt.Violation {
 	if res.Crash != nil && strings.Contains(res.Crash.Value, c11FailStop) {
-		inBlock := res.Probes["plan:io-failure:external-trigger"] > 0 || res.Probes["plan:io-failure:data-drop"] > 0
+		inBlock := res.Probes["plan:io-failure:external-trigger"] > 0 || res.Probes["plan:io-failure:data-drop"] > 0 ||
+			res.Probes["plan:disk-full:external-trigger"] > 0 || res.Probes["plan:disk-full:data-drop"] > 0
 		fired := false
 		for k, v := range res.Faults {
-			if strings.HasPrefix(k, "ioerr:") && v > 0 {
+			if (strings.HasPrefix(k, "ioerr:") || strings.HasPrefix(k, "fulldisk:")) && v > 0 {
 				fired = true
 			}
 		}
@@ -190,6 +198,8 @@ type c11World struct {
 	nmaps       int
 	faultClass string
 	persist    bool // the failure stays: from its first occurrence on, every operation of the class fails
+	full       bool // the failure is a full disk for the class: the file is created, every write through its handle fails
+	fullNoted  int  // full-disk handles counted into fires so far
 	fires      int  // how often the injected failure has happened so far
 	nreq       int
 	nerr       int
@@ -259,7 +269,26 @@ func c11Body(env *simrt.Env) {
 	c.fs = simrt.NewFaultFS(env.Dir)
 	c.faultClass = "none"
 	if env.Faulted() {
-		switch simrt.DrawFault(8) {
+		switch simrt.DrawFault(13) {
+		case 8, 9:
+			c.planDiskFull("comment", "comment.txt")
+		case 10, 11:
+			c.planDiskFull("experiment-state", "experiment_state")
+		case 12:
+			// (only the scripted hardware delivers external triggers and drop counts; channels.json is
+			// written by the Start method, which the scripted source does not go through)
+			switch side := simrt.DrawFault(3); {
+			case kind != 0 && side == 0:
+				c.planDiskFull("channel-groups", "channels.json")
+			case kind != 0:
+				c.planDiskFull("comment", "comment.txt")
+			case side == 1:
+				c.planDiskFull("external-trigger", "external_trigger")
+				c.fs.FullFrom = 0
+			default:
+				c.planDiskFull("data-drop", "data_drop")
+				c.fs.FullFrom = 0
+			}
 		case 1:
 			c.faultClass, c.fs.FailMatch, c.fs.FailAt = "comment", "comment.txt", simrt.DrawFault(2)
 		case 2:
@@ -275,7 +304,7 @@ func c11Body(env *simrt.Env) {
 		case 7:
 			c.faultClass, c.fs.FailMatch, c.fs.FailAt = "temp-file", "createtemp", simrt.DrawFault(2)
 		}
-		if c.faultClass != "none" {
+		if c.faultClass != "none" && !c.full {
 			c.fs.FailErr = []error{syscall.EIO, syscall.EACCES, syscall.ENOSPC}[simrt.DrawFault(3)]
 			simrt.Hit("plan:io-failure:" + c.faultClass)
 			// an uncreatable file is a condition, not an event: in half of the runs every later attempt on
@@ -316,6 +345,9 @@ func c11Body(env *simrt.Env) {
 	}
 	c.any = c.main
 	env.Op("control world source=%s nchan=%d nsamp=%d npre=%d block=%d+%d samples / %v fault=%s", c.name, nchan, nsamp, npre, c.blkLen, c.blkVar, c.blockTime, c.faultClass)
+	if c.full {
+		env.Op("fault plan: the disk is full for %v from creation #%d of such a file on (%d creations, 0 = all later ones)", c.fs.FullMatch, c.fs.FullFrom, c.fs.FullCount)
+	}
 
 	// sometimes the first requests arrive before any source was ever started
 	if simrt.Draw(5) == 4 {
@@ -368,7 +400,38 @@ func c11Body(env *simrt.Env) {
 	c.stopHardware()
 	c.pollRawBlocks()
 	env.Sample(map[string]interface{}{"source": c.name, "channels": nchan, "requests": c.nreq, "error_replies": c.nerr, "starts": c.starts,
-		"self_terminations": c.selfEnds, "io_failure": c.faultClass, "io_failure_persistent": c.persist, "io_failures_fired": c.fires, "raw_blocks_completed": len(c.rawSeen)})
+		"self_terminations": c.selfEnds, "io_failure": c.faultClass, "io_failure_persistent": c.persist, "disk_full": c.full, "io_failures_fired": c.fires, "raw_blocks_completed": len(c.rawSeen)})
+}
+
+// planDiskFull: the disk is full for one class of small files (a condition, like a quota or a full
+// partition: the file can be created, nothing can be written into it). Of the creations of the class,
+// number FullFrom and either all later ones or only that one get a handle on /dev/full.
+func (c *c11World) planDiskFull(class, match string) {
+	c.faultClass, c.full = class, true
+	c.fs.FullMatch = []string{match}
+	c.fs.FullFrom = simrt.DrawFault(2)
+	c.fs.FullCount = simrt.DrawFault(2)
+	simrt.Hit("plan:disk-full:" + class)
+}
+
+// stateFileOnFullDisk: the experiment-state file is open and its handle is the full-disk one, so the
+// next label written into it fails.
+func (c *c11World) stateFileOnFullDisk() bool {
+	f := c.any.writingState.experimentStateFile
+	return f != nil && f.Name() == "/dev/full"
+}
+
+// sideLogPendingOnFullDisk: the external-trigger or data-drop log is open on the full disk with bytes
+// waiting in its buffer, so the flush that STOP performs fails.
+func (c *c11World) sideLogPendingOnFullDisk() bool {
+	ws := &c.any.writingState
+	if f, b := ws.externalTriggerFile, ws.externalTriggerFileBufferedWriter; f != nil && b != nil && f.Name() == "/dev/full" && b.Buffered() > 0 {
+		return true
+	}
+	if f, b := ws.dataDropFile, ws.dataDropFileBufferedWriter; f != nil && b != nil && f.Name() == "/dev/full" && b.Buffered() > 0 {
+		return true
+	}
+	return false
 }
 
 // noteFires counts occurrences of the injected failure and, in the persistent mode, re-arms the plan
@@ -376,6 +439,10 @@ func c11Body(env *simrt.Env) {
 // a fresh plan with FailAt 0 is installed each time the previous one has fired. Called at every request
 // boundary and every region event, i.e. between any two operations of one class that dastard performs.)
 func (c *c11World) noteFires() {
+	if n := c.fs.FullFired; n > c.fullNoted {
+		c.fires += n - c.fullNoted
+		c.fullNoted = n
+	}
 	if !c.fs.Fired {
 		return
 	}
@@ -542,7 +609,14 @@ func (c *c11World) startMain() {
 		var dummy string
 		c.sc.SendAllStatus(&dummy, &ok)
 		name := c.name
+		before := c.fs.FullFired
 		err = c.sc.Start(&name, &ok)
+		if err != nil && c.fs.FullFired > before {
+			// Start could not write channels.json (full disk) and says so: no source is running then
+			c.noteFires()
+			c.env.Op("start %s refused: %v", c.name, err)
+			return
+		}
 	}
 	if err != nil {
 		simrt.Fail("harness.start", "harness:start", "Start of the %s source failed: %v", c.name, err)
@@ -769,6 +843,13 @@ func (c *c11World) call(r *c11Req) {
 		snapBefore = c.writingSnapshot()
 	}
 	c.callActive, c.callEntered, c.callWaited, c.callKind, c.callState = true, false, false, r.kind, st
+	// full disk: what the request will find (taken before the call; only requests change it, and this
+	// client's requests are issued one at a time)
+	fullHandles := c.fs.FullFired
+	stateFull, sidePending := false, false
+	if c.full && st == c11Healthy {
+		stateFull, sidePending = c.stateFileOnFullDisk(), c.sideLogPendingOnFullDisk()
+	}
 
 	done := make(chan struct{})
 	go func() {
@@ -788,6 +869,31 @@ func (c *c11World) call(r *c11Req) {
 	c.noteFires()
 	fired := c.fires > firesBefore
 	healthy := st == c11Healthy && !c.termSent && !c.overlap
+	// An I/O step of this request failed for certain (full disk): the property demands an error reply.
+	//  - the request created a file of the class and got the full-disk handle: WriteComment writes the (non-empty)
+	//    comment at once, whoever creates the experiment-state file writes its header and a label at once;
+	//  - the experiment-state file was already open on the full disk and the request writes a label into it
+	//    (state label, "UNPAUSE label", STOP's closing label);
+	//  - STOP flushes a side log that has bytes pending for the full disk.
+	ioFailed := ""
+	if c.full && healthy && c.callEntered {
+		createdFull := c.fs.FullFired > fullHandles
+		switch {
+		case createdFull && c.faultClass == "comment" && r.kind == "WriteComment":
+			ioFailed = "comment.txt was created but the comment could not be written (disk full)"
+		case createdFull && c.faultClass == "experiment-state" && r.queued:
+			ioFailed = "the experiment-state file was created but nothing could be written into it (disk full)"
+		case stateFull && (r.kind == "SetExperimentStateLabel" || r.kind == "WriteControl-UNPAUSE-label" || r.kind == "WriteControl-STOP"):
+			ioFailed = "the label could not be written into the experiment-state file (disk full)"
+		case sidePending && r.kind == "WriteControl-STOP":
+			ioFailed = "the pending lines of the external-trigger / data-drop log could not be flushed (disk full)"
+			simrt.Hit("stop-flush-failed-on-full-disk")
+		}
+	}
+	if ioFailed != "" {
+		fired = true
+		simrt.Hit("request-write-failed-on-full-disk:" + r.kind)
+	}
 	if c.termSent && st == c11Healthy && !c.callEntered && r.queued && c.termAt.Sub(callStart) > 100*time.Millisecond {
 		// the request had been waiting for the core loop for more than one re-check period of the RPC layer
 		// when the source ended itself, and the core loop never took it
@@ -818,6 +924,8 @@ func (c *c11World) call(r *c11Req) {
 		simrt.Hit("invalid-index-reached-handler")
 	}
 	switch {
+	case ioFailed != "" && err == nil:
+		simrt.Fail("C11.reply-kind", "reply:success-despite-io-failure:"+r.kind, "%s(%s) was answered with success although an I/O step of the request failed: %s", r.kind, r.desc, ioFailed)
 	case fired:
 		// relaxation: the reply may be the I/O error or a result; liveness is not relaxed
 		simrt.Hit("handler-hit-by-io-failure")
